@@ -45,7 +45,8 @@ func popWorker(args map[string]any, fn func(keyName string, count int) (values [
 		}
 		output.data = respBulkString(string(values[0]))
 	} else {
-		if len(values) == 0 && count > 0 {
+		if values == nil {
+			// no such key: a null reply whatever the count is
 			return
 		}
 
